@@ -3104,9 +3104,19 @@ func (a *AccumulatedServiceOutput) Encode(e *Encoder) error {
 		return err
 	}
 
+	// dictionary/set encoding is ordered by key (service id, then hash), not by map iteration
+	keys := make([]AccumulatedServiceHash, 0, len(*a))
 	for accumulatedServiceHash := range *a {
-		// AccumulatedServiceHash
-		if err := accumulatedServiceHash.Encode(e); err != nil {
+		keys = append(keys, accumulatedServiceHash)
+	}
+	sort.Slice(keys, func(i, j int) bool {
+		if keys[i].ServiceID != keys[j].ServiceID {
+			return keys[i].ServiceID < keys[j].ServiceID
+		}
+		return bytes.Compare(keys[i].Hash[:], keys[j].Hash[:]) < 0
+	})
+	for i := range keys {
+		if err := keys[i].Encode(e); err != nil {
 			return err
 		}
 	}
